@@ -201,7 +201,13 @@ impl ChannelSigner for TestChannelSigner {
 			return Err(());
 		}
 		#[cfg(feature = "_verif_hooks")]
-		verif_hooks_signer_log::record(self.inner.channel_keys_id(), "release", idx, None);
+		verif_hooks_signer_log::record(
+			Arc::as_ptr(&self.state) as usize,
+			self.inner.channel_keys_id(),
+			"release",
+			idx,
+			None,
+		);
 		let mut state = self.state.lock().unwrap();
 		if !self.disable_all_state_policy_checks {
 			assert!(idx == state.last_holder_revoked_commitment || idx == state.last_holder_revoked_commitment - 1, "can only revoke the current or next unrevoked commitment - trying {}, last revoked {}", idx, state.last_holder_revoked_commitment);
@@ -225,6 +231,7 @@ impl ChannelSigner for TestChannelSigner {
 		);
 		#[cfg(feature = "_verif_hooks")]
 		verif_hooks_signer_log::record(
+			Arc::as_ptr(&self.state) as usize,
 			self.inner.channel_keys_id(),
 			"validate_holder",
 			idx,
@@ -245,6 +252,7 @@ impl ChannelSigner for TestChannelSigner {
 	fn validate_counterparty_revocation(&self, idx: u64, _secret: &SecretKey) -> Result<(), ()> {
 		#[cfg(feature = "_verif_hooks")]
 		verif_hooks_signer_log::record(
+			Arc::as_ptr(&self.state) as usize,
 			self.inner.channel_keys_id(),
 			"validate_revocation",
 			idx,
@@ -288,6 +296,7 @@ impl EcdsaChannelSigner for TestChannelSigner {
 		}
 		#[cfg(feature = "_verif_hooks")]
 		verif_hooks_signer_log::record(
+			Arc::as_ptr(&self.state) as usize,
 			self.inner.channel_keys_id(),
 			"sign_counterparty",
 			commitment_tx.commitment_number(),
@@ -346,6 +355,7 @@ impl EcdsaChannelSigner for TestChannelSigner {
 		}
 		#[cfg(feature = "_verif_hooks")]
 		verif_hooks_signer_log::record(
+			Arc::as_ptr(&self.state) as usize,
 			self.inner.channel_keys_id(),
 			"sign_holder",
 			commitment_tx.commitment_number(),
@@ -375,6 +385,7 @@ impl EcdsaChannelSigner for TestChannelSigner {
 	) -> Result<Signature, ()> {
 		#[cfg(feature = "_verif_hooks")]
 		verif_hooks_signer_log::record(
+			Arc::as_ptr(&self.state) as usize,
 			self.inner.channel_keys_id(),
 			"unsafe_sign_holder",
 			commitment_tx.commitment_number(),
@@ -439,6 +450,7 @@ impl EcdsaChannelSigner for TestChannelSigner {
 		}
 		#[cfg(feature = "_verif_hooks")]
 		verif_hooks_signer_log::record(
+			Arc::as_ptr(&self.state) as usize,
 			self.inner.channel_keys_id(),
 			"sign_holder_htlc",
 			htlc_descriptor.per_commitment_number,
@@ -638,6 +650,10 @@ pub mod verif_hooks_signer_log {
 	/// One call on a [`super::TestChannelSigner`], recorded on entry (before any policy assertion).
 	#[derive(Clone, Debug, PartialEq, Eq)]
 	pub struct SignerCall {
+		/// Address of the signer's shared [`super::EnforcementState`]: the same for all copies of
+		/// one channel's signer on one node, distinct between nodes (whose `channel_keys_id`s can
+		/// coincide in tests).
+		pub state_id: usize,
 		/// The `channel_keys_id` of the signer the call was made on.
 		pub channel_keys_id: [u8; 32],
 		/// Which method: `release`, `validate_holder`, `validate_revocation`, `sign_counterparty`,
@@ -654,10 +670,17 @@ pub mod verif_hooks_signer_log {
 	}
 
 	pub(super) fn record(
-		channel_keys_id: [u8; 32], kind: &'static str, number: u64, commitment_txid: Option<Txid>,
+		state_id: usize, channel_keys_id: [u8; 32], kind: &'static str, number: u64,
+		commitment_txid: Option<Txid>,
 	) {
 		LOG.with(|l| {
-			l.borrow_mut().push(SignerCall { channel_keys_id, kind, number, commitment_txid })
+			l.borrow_mut().push(SignerCall {
+				state_id,
+				channel_keys_id,
+				kind,
+				number,
+				commitment_txid,
+			})
 		});
 	}
 
@@ -668,7 +691,10 @@ pub mod verif_hooks_signer_log {
 }
 #[cfg(all(feature = "_verif_hooks", not(feature = "std")))]
 mod verif_hooks_signer_log {
-	pub(super) fn record(_: [u8; 32], _: &'static str, _: u64, _: Option<bitcoin::Txid>) {}
+	pub(super) fn record(
+		_: usize, _: [u8; 32], _: &'static str, _: u64, _: Option<bitcoin::Txid>,
+	) {
+	}
 }
 
 /// Verification hooks (feature `_verif_hooks` only); see `ln::verif_hooks`. A per-thread,
